@@ -441,6 +441,9 @@ pub fn coordinator_main(check: &Check, tier: Tier) -> i32 {
     for v in &total.violations {
         if let Some(k) = known.iter().find(|k| k.status != "fixed" && v.key.starts_with(&k.key)) {
             *known_hit.entry(k.key.clone()).or_insert(0) += 1;
+            if std::env::var("VERIF_DUMP_KNOWN").is_ok() {
+                eprintln!("known-hit {} :: {} :: {}", v.key, v.detail, v.case);
+            }
             continue;
         }
         if !seen_keys.insert(v.key.clone()) {
